@@ -73,7 +73,7 @@ def sched_parts(pid: str, tier: str):
         from harness.history import HCfg, run_c11
 
         # "nothing else runs": disabled / unreachable debug nodes and already-set-up nodes are not entered
-        parts.append(Part("debug-nodes-N3", P(run_c13, GCfg(N=3, setup=False, activation=False, combined=False)), {"N": 3, "what": "debug nodes run only when enabled and only with their inputs available"}, 900, 5, ["w_debug_ran"], GRAPH_FUNCS))
+        parts.append(Part("debug-nodes-N3", P(run_c13, GCfg(N=3, setup=False, activation=False, combined=False, reconf=False)), {"N": 3, "what": "debug nodes run only when enabled and only with their inputs available"}, 900, 5, ["w_debug_ran"], GRAPH_FUNCS))
         parts.append(Part("setup-histories-len3-N2", P(run_c11, HCfg(N=2, length=3, flavours="s")), {"N": 2, "length": 3, "what": "an already-set-up node is not entered again"}, 900, 8, ["w_reuse"], HIST_FUNCS))
         from harness.history import run_c15
 
@@ -179,7 +179,7 @@ def graph_parts(pid: str, tier: str):
             parts.append(Part("closure-N3-setup", P(run_c12, GCfg(N=3, setup=True, indexed=True, combined=True)), {"N": 3, "setup": "first node optionally a setup node, optionally already set up"}, 1500, 5, ["w_error_case"], GRAPH_FUNCS))
     elif pid == "C13":
         parts.append(Part("debug-N3", P(run_c13, GCfg(N=3, setup=True, activation=True, combined=True)), {"N": 3, "debug placement": "every subset", "modes": "call, executor(target/exclude/root x node), setup"}, 600, 5, ["w_invalid_rejected", "w_debug_ran", "w_debug_with_selection", "w_debug_pulled_in", "w_combined_selection"], GRAPH_FUNCS))
-        parts.append(Part("debug-N4-combined", P(run_c13, GCfg(N=4, setup=False, combined=True)), {"N": 4, "modes": "call, single and combined (root+target, root+exclude) selections"}, 900, 6, ["w_debug_ran", "w_combined_selection"], GRAPH_FUNCS))
+        parts.append(Part("debug-N4-combined", P(run_c13, GCfg(N=4, setup=False, combined=True, reconf=False)), {"N": 4, "modes": "call, single and combined (root+target, root+exclude) selections"}, 900, 6, ["w_debug_ran", "w_combined_selection"], GRAPH_FUNCS))
         if not q:
             parts.append(Part("debug-N4-activation", P(run_c13, GCfg(N=4, setup=True, activation=True, combined=True)), {"N": 4}, 2400, 7, ["w_debug_ran"], GRAPH_FUNCS))
     return parts
